@@ -56,6 +56,30 @@ def batches(tier, seed):
     cnt = [{'kind': 'count', 't': t, 'ns': ns, 'perm': p} for t in TYPES for ns in shapes
            if min(ns) > 0 and (len(ns) == 2 or max(ns) <= 3 or tier != 'quick') for p in (0, 1)]
     yield 'count-max', cnt
+    # graph level: architectures offered under a constraint = the model's admissible set (Adm includes the index rule)
+    import dsgcase
+    n = 150 if tier == 'quick' else 2500
+    gcases = []
+    for i in range(n):
+        for _try in range(60):
+            c = dsgcase.gen_sel(rng, max_nodes=10, max_choices=4, cons_prob=1.0, n_incompat=rng.choice([0, 0, 0, 1]))
+            if c['cons'] and not dsgcase.guards(c):
+                break
+        c['kind'] = 'graph'
+        c['_i'] = i
+        gcases.append(c)
+    yield 'g-sel-cons-graph', gcases
+    pcases = []
+    for i in range(n):
+        for _try in range(60):
+            c = dsgcase.gen_sel(rng, max_nodes=10, max_choices=4, cons_prob=1.0, n_incompat=rng.choice([0, 0, 0, 1]))
+            if c['cons'] and not dsgcase.guards(c):
+                break
+        c['kind'] = 'proc'
+        c['_i'] = i
+        c['_kind'] = ['complete', 'fast'][i % 2]
+        pcases.append(c)
+    yield 'g-sel-cons-proc', pcases
 
 
 def _constraint(t, ns):
@@ -74,7 +98,31 @@ def _positions(res, nodes, opts):
     return out
 
 
+PROC_CLAUSES = {'construction-fails-on-feasible-space', 'decode-raises-on-feasible-space', 'instance-not-final',
+                'instance-not-feasible', 'decode-result-is-not-an-admissible-architecture', 'architectures-unreachable-by-any-vector',
+                'encoding-loses-or-merges-architectures', 'enumerated-vectors-differ', 'n-valid-designs-differs',
+                'corrected-vector-does-not-describe-the-instance', 'decodes-although-no-architecture-is-admissible'}
+
+
 def run_case(case):
+    if case['kind'] == 'graph':
+        import graphdrive
+        c = {k: v for k, v in case.items() if not k.startswith('_') and k != 'kind'}
+        r = graphdrive.explore(c, seed=case.get('_i', 0))
+        r.setdefault('tags', []).append('cons-graph:%s' % c['cons'][0]['type'] if c.get('cons') else 'cons-graph:none')
+        return r
+    if case['kind'] == 'proc':
+        import procdrive
+        c = {k: v for k, v in case.items() if not k.startswith('_') and k != 'kind'}
+        r = procdrive.run(c, case['_kind'], seed=case.get('_i', 0), vec_limit=120)
+        if r.get('skip'):
+            return r
+        mine = [f for f in r.get('fails', []) if f['clause'].split(':')[0] in PROC_CLAUSES or f['clause'] == 'model-error']
+        r['queries'] = []
+        r.setdefault('tags', []).append('cons-proc:%s:%s' % (case['_kind'], c['cons'][0]['type'] if c.get('cons') else 'none'))
+        if mine:
+            r['fail'] = dict(mine[0], all_clauses=[f['clause'] for f in mine])
+        return r
     import numpy as np
     from adsg_core.graph import choice_constraints as cc
     kind = case['kind']
@@ -107,12 +155,26 @@ def run_case(case):
 
 
 def compare(case, r, ms):
+    if case['kind'] in ('graph', 'proc'):
+        return None
     if ms[0] != r['impl']:
         return {'clause': case['kind'] + '-differs', 'detail': 'impl %s model %s' % (r['impl'], ms[0])}
     return None
 
 
+def match_known(case, fail, known):
+    if case.get('kind') in ('graph', 'proc'):
+        import dsgcase
+        return dsgcase.match_known({k: v for k, v in case.items() if k != 'kind'}, fail, known)
+    return None
+
+
 def shrink_candidates(case):
+    if case['kind'] in ('graph', 'proc'):
+        import dsgcase
+        for c in dsgcase.shrink_graph(case):
+            yield c
+        return
     if case['kind'] == 'rows':
         rows = case['rows']
         for i in range(len(rows)):
